@@ -1424,9 +1424,15 @@ func (interp *Interpreter) cfg(root *node, sc *scope, importPath, pkgName string
 						// Use the original unwrapped function type, to allow future field and
 						// methods resolutions, otherwise impossible on the opaque bin type.
 						n.typ = funcType.ret[0]
-						n.findex = sc.add(n.typ)
-						for i := 1; i < len(funcType.ret); i++ {
-							sc.add(funcType.ret[i])
+						if directReturn(n, sc.def) {
+							// The results are stored directly in the frame location
+							// of the outputs of the current function (see callBin).
+							n.findex = childPos(n)
+						} else {
+							n.findex = sc.add(n.typ)
+							for i := 1; i < len(funcType.ret); i++ {
+								sc.add(funcType.ret[i])
+							}
 						}
 					} else {
 						n.typ = valueTOf(typ.Out(0))
